@@ -32,9 +32,11 @@ MANIFEST = {
     "text": "Symbolic execution of json_to_cel, CELJSONEncoder.to_python/encode/default and of `.f`, [\"k\"], [i] navigation programs under both runners on documents whose scalar "
             "leaves are symbolic: z3 proves the type mapping (bool never becomes int), that to_python(json_to_cel(d)) is structurally equal to d for all leaf values, and that every "
             "valid path reaches exactly the leaf it reaches in the JSON document.",
-    "note": "Document shapes enumerated, leaf data symbolic. The final text rendering by the C json encoder is outside symbolic reach and is validated on witnesses.",
+    "note": "Document shapes enumerated, leaf data symbolic. The final text rendering by the C json encoder is outside symbolic reach and is validated on witnesses. "
+            "Timestamp and duration encodings (CELJSONEncoder.default) are decided for every whole-second instant 0001..9999 at every whole-minute offset and every whole-second duration in range, "
+            "on the term-level datetime model; bytes (base64, C code) on concrete representatives.",
     "technique": "symbolic execution of the real Python byte-code with shadow builtins + z3; structural-equality obligations over leaf terms; counterexample replay",
-    "design_ref": "DESIGN.md §7 C15",
+    "design_ref": "DESIGN.md §7 C15, §10.2 (timestamp/duration text on the time model)",
 }
 
 
